@@ -24,7 +24,10 @@ def build_cases(ctx):
     for z in zones:
         trs = ktz.transitions(z)
         if per_zone is not None and len(trs) > per_zone:
+            # (clock changes of more than an hour — a skipped or repeated calendar day — are always kept)
+            big = [tr for tr in trs if abs(tr[2] - tr[1]) > 3600]
             trs = rng.sample(trs, per_zone - 1) + [trs[-1]]
+            trs += [tr for tr in big if tr not in trs]
         for tr in trs:
             cases.append(ktz.make_case(z, tr, rng))
             if per_zone is None and rng.random() < 0.15:
